@@ -179,7 +179,11 @@ func runHistory(w *tr.Writer, rng *rand.Rand, T time.Time, base time.Time, obs [
 		h := handler.New(T, level)
 		if path == "getmessage" {
 			for i, o := range obs {
-				m, err := h.GetMessage(frames[i])
+				var m *handler.Message
+				var err error
+				if p := tr.Recover(func() { m, err = h.GetMessage(frames[i]) }); p != "" {
+					m, err = nil, errString("panic: "+p) // the library's failure, reported with the observation it hit
+				}
 				if o.noise == nil {
 					record(w, o, m, err, base)
 				}
@@ -215,11 +219,26 @@ func runHistory(w *tr.Writer, rng *rand.Rand, T time.Time, base time.Time, obs [
 		}
 		chIn := make(chan byte, 16)
 		chOut := make(chan handler.Message, 1)
-		go h.HandleMessages(chIn, chOut)
+		dead := make(chan struct{})
 		go func() {
+			// a panic of the stream handler ends this history (the remaining observations are reported as missing)
+			defer func() {
+				if recover() != nil {
+					close(dead)
+					close(chOut)
+				}
+			}()
+			h.HandleMessages(chIn, chOut)
+		}()
+		go func() {
+			defer func() { recover() }()
 			for _, f := range frames {
 				for _, b := range f {
-					chIn <- b
+					select {
+					case chIn <- b:
+					case <-dead:
+						return
+					}
 				}
 			}
 			close(chIn)
@@ -337,6 +356,12 @@ func genHistory(rng *rand.Rand, firstNotBeforeT bool) (time.Time, time.Time, []o
 		if rng.Intn(25) == 0 {
 			nt := []int{1104, 1107, 1114, 1117, 1134, 1137, 1005, 1230}[rng.Intn(8)]
 			obs = append(obs, obsSpec{c: "noise", noise: gen.Frame(rng, nt, 22+rng.Intn(10), 0)})
+			continue
+		}
+		if rng.Intn(25) == 0 {
+			// a CRC-valid frame of this constellation's type that is too short to hold a timestamp (payload 2..6 bytes): it is
+			// refused, and what follows keeps its times
+			obs = append(obs, obsSpec{c: "noise", noise: gen.Frame(rng, mt, 2+rng.Intn(5), 0)})
 			continue
 		}
 		if rng.Intn(25) == 0 {
